@@ -32,31 +32,52 @@ def _elem(a):
     return b[1], a[2]
 
 
-def _guarded(f, dom, blk, arr, idx):
-    """Does a branch on G(&arr[idx]) dominate block blk (same index expression, index variables not reassigned since)?"""
+def _guarded(f, dom, blk, arr, idx, use_idx=None):
+    """Is the use in block blk (element index use_idx) preceded on every path by a validity test G(&arr[idx]) of the same object
+    — as a branch condition or inside a verdict update such as `ret &= !G(&x)` — with no assignment to the object / its index
+    variables between the test and the use?"""
     ivars = vars_in(idx) if idx is not None else {arr}
+
+    def same(e):
+        return e and e[0] == arr and ((idx is None and e[1] is None) or (idx is not None and e[1] is not None and repr(strip(e[1])) == repr(strip(idx))))
+
+    def defs_between(bid, lo, hi):
+        for el in f.blocks[bid].elems:
+            if not el.top or (lo is not None and el.idx <= lo) or (hi is not None and el.idx >= hi):
+                continue
+            for (n, op, rhs, via) in defs_in_elem(el.e):
+                if n in ivars:
+                    return True
+        return False
+
     for d in dom.get(blk, ()):
         b = f.blocks[d]
-        if b.cond is None or d == blk:
-            continue
-        for c in calls_in(b.cond):
-            if callee_name(c) in GUARDS and c[3]:
-                e = _elem(c[3][0])
-                if e and e[0] == arr and ((idx is None and e[1] is None) or (idx is not None and e[1] is not None and repr(strip(e[1])) == repr(strip(idx)))):
-                    # index variables must not change on any path from the guard to the use
-                    # blocks on a path from the guard to the use that does not pass the guard or the use again
-                    region = f.reachable_from(d, avoid=frozenset({d, blk}))
-                    region = {x for x in region if blk in f.reachable_from(x, avoid=frozenset({d})) or blk in f.blocks[x].succs}
-                    clean = True
-                    for r in region:
-                        if r == blk:
-                            continue
-                        for el in f.blocks[r].elems:
-                            for (n, op, rhs, via) in defs_in_elem(el.e):
-                                if n in ivars:
-                                    clean = False
-                    if clean:
-                        return callee_name(c), b.term["loc"]
+        cands = []      # (element index of the guard or None for the terminator condition, callee, loc)
+        for el in b.elems:
+            if not el.top or (d == blk and use_idx is not None and el.idx >= use_idx):
+                continue
+            for c in calls_in(el.e):
+                if callee_name(c) in GUARDS and c[3] and same(_elem(c[3][0])):
+                    cands.append((el.idx, callee_name(c), c[2]))
+        if d != blk and b.cond is not None:
+            for c in calls_in(b.cond):
+                if callee_name(c) in GUARDS and c[3] and same(_elem(c[3][0])):
+                    cands.append((10 ** 9, callee_name(c), b.term["loc"]))
+        for (gidx, gname, gloc) in cands:
+            if d == blk:
+                if not defs_between(blk, gidx, use_idx):
+                    return gname, gloc
+                continue
+            if defs_between(d, gidx if gidx < 10 ** 9 else None, None) and gidx < 10 ** 9:
+                continue
+            # blocks on a path from the guard to the use that does not pass the guard or the use again
+            region = f.reachable_from(d, avoid=frozenset({d, blk}))
+            region = {x for x in region if blk in f.reachable_from(x, avoid=frozenset({d})) or blk in f.blocks[x].succs}
+            if any(defs_between(r, None, None) for r in region if r != blk):
+                continue
+            if defs_between(blk, None, use_idx):
+                continue
+            return gname, gloc
     return None
 
 
@@ -79,7 +100,7 @@ def scan(prog):
                     em = _elem(a)
                     if not em:
                         continue
-                    g = _guarded(f, dom, b.id, em[0], em[1])
+                    g = _guarded(f, dom, b.id, em[0], em[1], el.idx)
                     out.append({"fn": f.name, "use": callee_name(e), "arr": em[0], "idx": show(em[1]) if em[1] is not None else "", "loc": e[2], "guard": g, "file": f.file})
     return out
 
